@@ -4,6 +4,7 @@ import (
 	"bytes"
 	"fmt"
 	"runtime"
+	"sort"
 	"sync/atomic"
 	"time"
 
@@ -388,8 +389,14 @@ func (r *Runner) FreeCall(method string, size, k int, nsw bool, cancel string, d
 	select {
 	case <-done:
 	case <-time.After(SyncTimeout + delay):
-		atomic.AddInt32(&r.Stuck, 1)
-		tr.Emit("Quiescent", 0, tok, "why", "stub did not return")
+		// stuck, unless it is only slow: the verdict must persist
+		select {
+		case <-done:
+			tr.Emit("Slow", 0, tok, "what", "stub returned only within the persistence period")
+		case <-time.After(PersistT):
+			atomic.AddInt32(&r.Stuck, 1)
+			tr.Emit("Quiescent", 0, tok, "why", "stub did not return")
+		}
 	}
 	// asynchronous calls: wait for the future / correctable to complete, so that
 	// a goroutine's calls follow each other like a user's would
@@ -402,8 +409,13 @@ func (r *Runner) FreeCall(method string, size, k int, nsw bool, cancel string, d
 		select {
 		case <-obj.corr.Done():
 		case <-time.After(SyncTimeout + delay):
-			atomic.AddInt32(&r.Stuck, 1)
-			tr.Emit("Quiescent", 0, tok, "why", "correctable did not complete")
+			select {
+			case <-obj.corr.Done():
+				tr.Emit("Slow", 0, tok, "what", "correctable completed only within the persistence period")
+			case <-time.After(PersistT):
+				atomic.AddInt32(&r.Stuck, 1)
+				tr.Emit("Quiescent", 0, tok, "why", "correctable did not complete")
+			}
 		}
 	}
 	return tok
@@ -421,18 +433,25 @@ func (r *Runner) Settle(toks []uint64) bool {
 	}
 	clean := true
 	starts, returns := 0, 0
+	var missing []string
 	{
-		// Await scanned everything recorded so far; poll until starts == returns
+		// Await scanned everything recorded so far; poll until starts == returns.
+		// A handler that has not returned is reported only if it stays that way for
+		// PersistT beyond the normal bound: a verdict must not depend on scheduling.
 		deadline := time.Now().Add(3 * SyncTimeout)
+		slow := false
 		for {
 			starts, returns = 0, 0
+			open := map[string]int{}
 			for _, ev := range tr.Events(0) {
 				if mine[ev.Tok] {
 					switch ev.Ev {
 					case "HStart":
 						starts++
+						open[fmt.Sprintf("node %d call %d", ev.Node, ev.Tok)]++
 					case "HReturn":
 						returns++
+						open[fmt.Sprintf("node %d call %d", ev.Node, ev.Tok)]--
 					}
 				}
 			}
@@ -440,17 +459,40 @@ func (r *Runner) Settle(toks []uint64) bool {
 				break
 			}
 			if time.Now().After(deadline) {
+				if !slow {
+					slow = true
+					deadline = time.Now().Add(PersistT)
+					continue
+				}
 				clean = false
+				for k, n := range open {
+					if n != 0 {
+						missing = append(missing, k)
+					}
+				}
+				sort.Strings(missing)
 				break
 			}
 			time.Sleep(5 * time.Millisecond)
 		}
+		if slow && clean {
+			tr.Emit("Slow", 0, 0, "what", "handlers returned only within the persistence period")
+		}
 	}
 	cg := r.awaitNoResidue(3 * time.Second)
+	if cg != 0 || r.residue() {
+		// a leftover is reported only if it persists
+		if cg = r.awaitNoResidue(PersistT); cg == 0 && !r.residue() {
+			tr.Emit("Slow", 0, 0, "what", "routers / call goroutines were gone only within the persistence period")
+		}
+	}
 	for n := 1; n <= nn; n++ {
 		tr.Emit("Routers", uint32(n), 0, "count", gorums.VerifRouterCount(e.Node(n).RawNode))
 	}
-	tr.Emit("ProgEnd", 0, 0, "clean", clean, "callgoroutines", cg)
+	if missing == nil {
+		missing = []string{}
+	}
+	tr.Emit("ProgEnd", 0, 0, "clean", clean, "callgoroutines", cg, "missing", missing)
 	return clean
 }
 
@@ -488,7 +530,9 @@ func (r *Runner) awaitNoResidue(d time.Duration) int {
 	for {
 		left := 0
 		for n := 1; n <= len(e.Servers); n++ {
-			left += gorums.VerifRouterCount(e.Node(n).RawNode)
+			if c := gorums.VerifRouterCount(e.Node(n).RawNode); c != 0 {
+				left++ // routers left, or the router mutex stays held (c < 0)
+			}
 		}
 		if left == 0 {
 			if cg = CallGoroutines(); cg == 0 {
@@ -508,6 +552,16 @@ func (r *Runner) awaitNoResidue(d time.Duration) int {
 	}
 }
 
+// residue reports whether some node still has a router (or a held router mutex).
+func (r *Runner) residue() bool {
+	for n := 1; n <= len(r.E.Servers); n++ {
+		if gorums.VerifRouterCount(r.E.Node(n).RawNode) != 0 {
+			return true
+		}
+	}
+	return false
+}
+
 // getOrStuck waits for a future, bounded.
 func (r *Runner) getOrStuck(tok uint64, get func()) {
 	done := make(chan struct{})
@@ -515,7 +569,12 @@ func (r *Runner) getOrStuck(tok uint64, get func()) {
 	select {
 	case <-done:
 	case <-time.After(2 * SyncTimeout):
-		atomic.AddInt32(&r.Stuck, 1)
-		r.E.Tr.Emit("Quiescent", 0, tok, "why", "future did not complete")
+		select {
+		case <-done:
+			r.E.Tr.Emit("Slow", 0, tok, "what", "future completed only within the persistence period")
+		case <-time.After(PersistT):
+			atomic.AddInt32(&r.Stuck, 1)
+			r.E.Tr.Emit("Quiescent", 0, tok, "why", "future did not complete")
+		}
 	}
 }
